@@ -21,5 +21,22 @@ pub fn run(rep: &Report) -> u64 {
     c15::explore(&ex);
     c18::explore(&ex);
     c07::families(&Ex { rep, pid: "C13", checks: CHECKS, scale: Scale::Small });
+    // deep nesting: the byte API and parse-then-convert must give up at the same depth
+    {
+        let ex = Ex { rep, pid: "C13", checks: Checks { layers: true, ..Checks::NONE }, scale };
+        let mut names = crate::spaces::c01::family_names(false);
+        names.retain(|n| n.starts_with("nest:") || n.starts_with("recipients:") || n == "depth:su:0" || n == "depth:au:0" || n == "depth:sp:0");
+        crate::mc::par_partitions(rep, names, |name, l| {
+            for n in (1..=40).chain((41..=300).step_by(if rep.tier == Tier::Quick { 3 } else { 1 })) {
+                if let Some((eps, bytes)) = crate::spaces::c01::family(name, n) {
+                    l.state(n as u64);
+                    l.count("c13.nesting.cases");
+                    for (ty, entry) in eps.iter().take(4) {
+                        ex.decode(l, "c13.nesting", *ty, *entry, &bytes);
+                    }
+                }
+            }
+        });
+    }
     1000
 }
